@@ -33,6 +33,8 @@
 #include "processor.cpp"
 #include "apbp.cpp"
 #include "teakra.cpp"
+#include "teakra/teakra_c.h"
+#include "teakra_c.cpp"   // struct TeakraObject (the C binding's context) is defined in the .cpp
 
 using namespace Teakra;
 using vlayout::NREG;
@@ -515,8 +517,47 @@ static Prog make_loop_program(vh::Rng& rng, std::string& descr) {
     return p;
 }
 
+// The host side of the recorder talks to the machine either through the C++ class or, with --api c, through the C
+// binding (teakra_c.h): same calls, same observations, same specification.
+struct HostApi {
+    Teakra::Teakra* t = nullptr;      // the machine (owned by `own` or living inside `ctx`)
+    TeakraContext* ctx = nullptr;     // non-null: every call goes through the Teakra_* functions
+    void Run(unsigned n) { ctx ? Teakra_Run(ctx, n) : t->Run(n); }
+    void Reset() { ctx ? Teakra_Reset(ctx) : t->Reset(); }
+    bool SendDataIsEmpty(u8 i) { return ctx ? Teakra_SendDataIsEmpty(ctx, i) != 0 : t->SendDataIsEmpty(i); }
+    void SendData(u8 i, u16 v) { ctx ? Teakra_SendData(ctx, i, v) : t->SendData(i, v); }
+    bool RecvDataIsReady(u8 i) { return ctx ? Teakra_RecvDataIsReady(ctx, i) != 0 : t->RecvDataIsReady(i); }
+    u16 RecvData(u8 i) { return ctx ? Teakra_RecvData(ctx, i) : t->RecvData(i); }
+    u16 PeekRecvData(u8 i) { return ctx ? Teakra_PeekRecvData(ctx, i) : t->PeekRecvData(i); }
+    void SetSemaphore(u16 v) { ctx ? Teakra_SetSemaphore(ctx, v) : t->SetSemaphore(v); }
+    void ClearSemaphore(u16 v) { ctx ? Teakra_ClearSemaphore(ctx, v) : t->ClearSemaphore(v); }
+    void MaskSemaphore(u16 v) { ctx ? Teakra_MaskSemaphore(ctx, v) : t->MaskSemaphore(v); }
+    u16 GetSemaphore() { return ctx ? Teakra_GetSemaphore(ctx) : t->GetSemaphore(); }
+    u16 ProgramRead(u32 a) { return ctx ? Teakra_ProgramRead(ctx, a) : t->ProgramRead(a); }
+    void ProgramWrite(u32 a, u16 v) { ctx ? Teakra_ProgramWrite(ctx, a, v) : t->ProgramWrite(a, v); }
+    u16 DataRead(u16 a, bool bypass = false) { return ctx ? Teakra_DataRead(ctx, a, bypass) : t->DataRead(a, bypass); }
+    void DataWrite(u16 a, u16 v, bool bypass = false) { ctx ? Teakra_DataWrite(ctx, a, v, bypass) : t->DataWrite(a, v, bypass); }
+    u16 DataReadA32(u32 a) { return ctx ? Teakra_DataReadA32(ctx, a) : t->DataReadA32(a); }
+    void DataWriteA32(u32 a, u16 v) { ctx ? Teakra_DataWriteA32(ctx, a, v) : t->DataWriteA32(a, v); }
+    u16 MMIORead(u16 a) { return ctx ? Teakra_MMIORead(ctx, a) : t->MMIORead(a); }
+    void MMIOWrite(u16 a, u16 v) { ctx ? Teakra_MMIOWrite(ctx, a, v) : t->MMIOWrite(a, v); }
+    u16 DMAChan0GetSrcHigh() { return ctx ? Teakra_DMAChan0GetSrcHigh(ctx) : t->DMAChan0GetSrcHigh(); }
+    u16 DMAChan0GetDstHigh() { return ctx ? Teakra_DMAChan0GetDstHigh(ctx) : t->DMAChan0GetDstHigh(); }
+    u16 AHBMGetUnitSize(u16 i) { return ctx ? Teakra_AHBMGetUnitSize(ctx, i) : t->AHBMGetUnitSize(i); }
+    u16 AHBMGetDirection(u16 i) { return ctx ? Teakra_AHBMGetDirection(ctx, i) : t->AHBMGetDirection(i); }
+    u16 AHBMGetDmaChannel(u16 i) { return ctx ? Teakra_AHBMGetDmaChannel(ctx, i) : t->AHBMGetDmaChannel(i); }
+    u16 AHBMRead16(u32 a) { return ctx ? Teakra_AHBMRead16(ctx, a) : t->AHBMRead16(a); }
+    void AHBMWrite16(u32 a, u16 v) { ctx ? Teakra_AHBMWrite16(ctx, a, v) : t->AHBMWrite16(a, v); }
+    u16 AHBMRead32(u32 a) { return ctx ? Teakra_AHBMRead32(ctx, a) : t->AHBMRead32(a); }
+    void AHBMWrite32(u32 a, u32 v) { ctx ? Teakra_AHBMWrite32(ctx, a, v) : t->AHBMWrite32(a, v); }
+};
+
 struct Inst {
-    std::unique_ptr<Teakra::Teakra> t;
+    std::unique_ptr<Teakra::Teakra> own;
+    Teakra::Teakra* t = nullptr;
+    HostApi api;
+    struct ChanCb { Inst* in; int c; } chan_cb[3];
+    ~Inst() { if (api.ctx) Teakra_Destroy(api.ctx); }
     WriteLog log;
     std::vector<std::array<int, 3>> ev;   // host callbacks since the last observation, in order
     ExtMem x;                             // external memory behind the AHBM callbacks
@@ -628,21 +669,38 @@ static void observe_io(vh::Out& o, Inst& in, std::vector<std::array<int, 3>>& ev
     in.x.xa.clear();
 }
 
+static bool g_capi = false;
 static void fresh(Inst& in) {
-    Teakra::UserConfig cfg;
-    in.t = std::make_unique<Teakra::Teakra>(cfg);
-    auto* ev = &in.ev;
-    in.t->SetAudioCallback([ev](std::array<s16, 2> f) { ev->push_back({0, (int)(u16)f[0], (int)(u16)f[1]}); });
-    for (int c = 0; c < 3; ++c) in.t->SetRecvDataHandler(c, [ev, c] { ev->push_back({1, c, 0}); });
-    in.t->SetSemaphoreHandler([ev] { ev->push_back({2, 0, 0}); });
     ExtMem* x = &in.x;
     x->mem.clear(); x->xa.clear();
-    Teakra::AHBMCallback cb;
-    cb.read8 = [x](u32 a) { return x->r8(a); };   cb.write8 = [x](u32 a, u8 v) { x->w8(a, v); };
-    cb.read16 = [x](u32 a) { return x->r16(a); }; cb.write16 = [x](u32 a, u16 v) { x->w16(a, v); };
-    cb.read32 = [x](u32 a) { return x->r32(a); }; cb.write32 = [x](u32 a, u32 v) { x->w32(a, v); };
-    in.t->SetAHBMCallback(cb);
-    in.t->Reset();
+    if (g_capi) {
+        in.api.ctx = Teakra_Create();
+        in.t = in.api.t = &in.api.ctx->teakra;
+        Teakra_SetAudioCallback(in.api.ctx, [](void* ud, int16_t sm[2]) { ((Inst*)ud)->ev.push_back({0, (int)(u16)sm[0], (int)(u16)sm[1]}); }, &in);
+        for (int c = 0; c < 3; ++c) {
+            in.chan_cb[c] = {&in, c};
+            Teakra_SetRecvDataHandler(in.api.ctx, (u8)c, [](void* ud) { auto* k = (Inst::ChanCb*)ud; k->in->ev.push_back({1, k->c, 0}); }, &in.chan_cb[c]);
+        }
+        Teakra_SetSemaphoreHandler(in.api.ctx, [](void* ud) { ((Inst*)ud)->ev.push_back({2, 0, 0}); }, &in);
+        Teakra_SetAHBMCallback(in.api.ctx,
+            [](void* ud, u32 a) -> u8 { return ((ExtMem*)ud)->r8(a); }, [](void* ud, u32 a, u8 v) { ((ExtMem*)ud)->w8(a, v); },
+            [](void* ud, u32 a) -> u16 { return ((ExtMem*)ud)->r16(a); }, [](void* ud, u32 a, u16 v) { ((ExtMem*)ud)->w16(a, v); },
+            [](void* ud, u32 a) -> u32 { return ((ExtMem*)ud)->r32(a); }, [](void* ud, u32 a, u32 v) { ((ExtMem*)ud)->w32(a, v); }, x);
+    } else {
+        Teakra::UserConfig cfg;
+        in.own = std::make_unique<Teakra::Teakra>(cfg);
+        in.t = in.api.t = in.own.get();
+        auto* ev = &in.ev;
+        in.t->SetAudioCallback([ev](std::array<s16, 2> f) { ev->push_back({0, (int)(u16)f[0], (int)(u16)f[1]}); });
+        for (int c = 0; c < 3; ++c) in.t->SetRecvDataHandler(c, [ev, c] { ev->push_back({1, c, 0}); });
+        in.t->SetSemaphoreHandler([ev] { ev->push_back({2, 0, 0}); });
+        Teakra::AHBMCallback cb;
+        cb.read8 = [x](u32 a) { return x->r8(a); };   cb.write8 = [x](u32 a, u8 v) { x->w8(a, v); };
+        cb.read16 = [x](u32 a) { return x->r16(a); }; cb.write16 = [x](u32 a, u16 v) { x->w16(a, v); };
+        cb.read32 = [x](u32 a) { return x->r32(a); }; cb.write32 = [x](u32 a, u32 v) { x->w32(a, v); };
+        in.t->SetAHBMCallback(cb);
+    }
+    in.api.Reset();
     in.ev.clear();
     // the ICU has no reset and its vector tables no initialiser: give the run a defined start and let the
     // New line carry it (C17 looks at the uninitialised case separately)
@@ -653,6 +711,7 @@ static void fresh(Inst& in) {
 
 int main(int argc, char** argv) {
     vh::Args a(argc, argv);
+    for (int i = 1; i + 1 < argc; ++i) if (std::string(argv[i]) == "--api") g_capi = std::string(argv[i + 1]) == "c";
     vh::Out o;
     o.open(a.out.c_str());
     vh::install_fault_handlers(&o);
@@ -694,7 +753,7 @@ int main(int argc, char** argv) {
             std::string lw = "[";
             bool first = true;
             for (auto& kv : prog.words) {
-                in.t->ProgramWrite(kv.first, kv.second);
+                in.api.ProgramWrite(kv.first, kv.second);
                 if (!first) lw += ',';
                 first = false;
                 lw += "[" + std::to_string(kv.first) + "," + std::to_string(kv.second) + "]";
@@ -707,7 +766,7 @@ int main(int argc, char** argv) {
                 in.log.written.clear();
                 const char* out = "ok";
                 std::string why;
-                try { in.t->Run(n); }
+                try { in.api.Run(n); }
                 catch (const UnimplementedException&) { out = "unimpl"; dead = true; }
                 catch (const TeakraVerifAssert& e) { out = "assert"; dead = true; why = std::string(e.expression) + " @" + e.file + ":" + std::to_string(e.line); }
                 if (in.log.oob) { out = "oob"; dead = true; }
@@ -774,36 +833,36 @@ int main(int argc, char** argv) {
                     unsigned ha = 0, hb = 0; long ret = 0;
                     u32 xa = 0, xv = 0;               // AHBM accessors: 32-bit address / value, logged as [hi, lo]
                     in.log.written.clear();
-                    if (op == "SendData") { ha = hrng.below(3); hb = hrng.u16(); in.t->SendData(ha, hb); }
-                    else if (op == "RecvData") { ha = hrng.below(3); ret = in.t->RecvData(ha); }
-                    else if (op == "RecvDataIsReady") { ha = hrng.below(3); ret = in.t->RecvDataIsReady(ha) ? 1 : 0; }
-                    else if (op == "SendDataIsEmpty") { ha = hrng.below(3); ret = in.t->SendDataIsEmpty(ha) ? 1 : 0; }
-                    else if (op == "SetSemaphore") { ha = hrng.chance(1, 2) ? (1u << hrng.below(16)) : hrng.u16(); in.t->SetSemaphore(ha); }
-                    else if (op == "ClearSemaphore") { ha = hrng.chance(1, 2) ? 0xFFFF : hrng.u16(); in.t->ClearSemaphore(ha); }
-                    else if (op == "MaskSemaphore") { ha = hrng.chance(1, 2) ? 0 : hrng.u16(); in.t->MaskSemaphore(ha); }
-                    else if (op == "GetSemaphore") { ret = in.t->GetSemaphore(); }
-                    else if (op == "Reset") { in.t->Reset(); }
-                    else if (op == "PeekRecvData") { ha = hrng.below(3); ret = in.t->PeekRecvData(ha); }
-                    else if (op == "AHBMRead16") { xa = xaddr(); ret = in.t->AHBMRead16(xa); }
-                    else if (op == "AHBMRead32") { xa = xaddr(); ret = in.t->AHBMRead32(xa); }
-                    else if (op == "AHBMWrite16") { xa = xaddr(); hb = hrng.u16(); in.t->AHBMWrite16(xa, (u16)hb); }
-                    else if (op == "AHBMWrite32") { xa = xaddr(); xv = (u32)hrng.next(); in.t->AHBMWrite32(xa, xv); }
-                    else if (op == "AHBMGetUnitSize") { ha = hrng.below(3); ret = in.t->AHBMGetUnitSize(ha); }
-                    else if (op == "AHBMGetDirection") { ha = hrng.below(3); ret = in.t->AHBMGetDirection(ha); }
-                    else if (op == "AHBMGetDmaChannel") { ha = hrng.below(3); ret = in.t->AHBMGetDmaChannel(ha); }
-                    else if (op == "DMAChan0GetSrcHigh") { ret = in.t->DMAChan0GetSrcHigh(); }
-                    else if (op == "DMAChan0GetDstHigh") { ret = in.t->DMAChan0GetDstHigh(); }
+                    if (op == "SendData") { ha = hrng.below(3); hb = hrng.u16(); in.api.SendData(ha, hb); }
+                    else if (op == "RecvData") { ha = hrng.below(3); ret = in.api.RecvData(ha); }
+                    else if (op == "RecvDataIsReady") { ha = hrng.below(3); ret = in.api.RecvDataIsReady(ha) ? 1 : 0; }
+                    else if (op == "SendDataIsEmpty") { ha = hrng.below(3); ret = in.api.SendDataIsEmpty(ha) ? 1 : 0; }
+                    else if (op == "SetSemaphore") { ha = hrng.chance(1, 2) ? (1u << hrng.below(16)) : hrng.u16(); in.api.SetSemaphore(ha); }
+                    else if (op == "ClearSemaphore") { ha = hrng.chance(1, 2) ? 0xFFFF : hrng.u16(); in.api.ClearSemaphore(ha); }
+                    else if (op == "MaskSemaphore") { ha = hrng.chance(1, 2) ? 0 : hrng.u16(); in.api.MaskSemaphore(ha); }
+                    else if (op == "GetSemaphore") { ret = in.api.GetSemaphore(); }
+                    else if (op == "Reset") { in.api.Reset(); }
+                    else if (op == "PeekRecvData") { ha = hrng.below(3); ret = in.api.PeekRecvData(ha); }
+                    else if (op == "AHBMRead16") { xa = xaddr(); ret = in.api.AHBMRead16(xa); }
+                    else if (op == "AHBMRead32") { xa = xaddr(); ret = in.api.AHBMRead32(xa); }
+                    else if (op == "AHBMWrite16") { xa = xaddr(); hb = hrng.u16(); in.api.AHBMWrite16(xa, (u16)hb); }
+                    else if (op == "AHBMWrite32") { xa = xaddr(); xv = (u32)hrng.next(); in.api.AHBMWrite32(xa, xv); }
+                    else if (op == "AHBMGetUnitSize") { ha = hrng.below(3); ret = in.api.AHBMGetUnitSize(ha); }
+                    else if (op == "AHBMGetDirection") { ha = hrng.below(3); ret = in.api.AHBMGetDirection(ha); }
+                    else if (op == "AHBMGetDmaChannel") { ha = hrng.below(3); ret = in.api.AHBMGetDmaChannel(ha); }
+                    else if (op == "DMAChan0GetSrcHigh") { ret = in.api.DMAChan0GetSrcHigh(); }
+                    else if (op == "DMAChan0GetDstHigh") { ret = in.api.DMAChan0GetDstHigh(); }
                     else try {
-                        if (op == "DataWrite") { ha = daddr(); hb = mval((u16)(ha - mu.mmio_base)); in.t->DataWrite(ha, hb); }
-                        else if (op == "DataRead") { ha = daddr(); ret = in.t->DataRead(ha); }
-                        else if (op == "DataWriteBypass") { ha = daddr(); hb = hrng.u16(); in.t->DataWrite(ha, hb, true); }
-                        else if (op == "DataReadBypass") { ha = daddr(); ret = in.t->DataRead(ha, true); }
-                        else if (op == "DataWriteA32") { ha = hrng.chance(1, 2) ? hrng.below(0x20000) : (hrng.below(0x100) << 16) | hrng.u16(); hb = hrng.u16(); in.t->DataWriteA32(ha, hb); }
-                        else if (op == "DataReadA32") { ha = hrng.chance(1, 2) ? hrng.below(0x20000) : (hrng.below(0x100) << 16) | hrng.u16(); ret = in.t->DataReadA32(ha); }
-                        else if (op == "ProgramWrite") { ha = hrng.chance(1, 2) ? 0x20000 + hrng.below(0x20000) : 0x1000 + hrng.below(0x3F000); hb = hrng.u16(); in.t->ProgramWrite(ha, hb); }
-                        else if (op == "ProgramRead") { ha = hrng.below(0x40000); ret = in.t->ProgramRead(ha); }
-                        else if (op == "MMIOWrite") { ha = moff() + (hrng.chance(1, 4) ? 0x800 * hrng.below(31) : 0); hb = mval((u16)(ha & 0x7FF)); in.t->MMIOWrite(ha, hb); }
-                        else if (op == "MMIORead") { ha = moff() + (hrng.chance(1, 4) ? 0x800 * hrng.below(31) : 0); ret = in.t->MMIORead(ha); }
+                        if (op == "DataWrite") { ha = daddr(); hb = mval((u16)(ha - mu.mmio_base)); in.api.DataWrite(ha, hb); }
+                        else if (op == "DataRead") { ha = daddr(); ret = in.api.DataRead(ha); }
+                        else if (op == "DataWriteBypass") { ha = daddr(); hb = hrng.u16(); in.api.DataWrite(ha, hb, true); }
+                        else if (op == "DataReadBypass") { ha = daddr(); ret = in.api.DataRead(ha, true); }
+                        else if (op == "DataWriteA32") { ha = hrng.chance(1, 2) ? hrng.below(0x20000) : (hrng.below(0x100) << 16) | hrng.u16(); hb = hrng.u16(); in.api.DataWriteA32(ha, hb); }
+                        else if (op == "DataReadA32") { ha = hrng.chance(1, 2) ? hrng.below(0x20000) : (hrng.below(0x100) << 16) | hrng.u16(); ret = in.api.DataReadA32(ha); }
+                        else if (op == "ProgramWrite") { ha = hrng.chance(1, 2) ? 0x20000 + hrng.below(0x20000) : 0x1000 + hrng.below(0x3F000); hb = hrng.u16(); in.api.ProgramWrite(ha, hb); }
+                        else if (op == "ProgramRead") { ha = hrng.below(0x40000); ret = in.api.ProgramRead(ha); }
+                        else if (op == "MMIOWrite") { ha = moff() + (hrng.chance(1, 4) ? 0x800 * hrng.below(31) : 0); hb = mval((u16)(ha & 0x7FF)); in.api.MMIOWrite(ha, hb); }
+                        else if (op == "MMIORead") { ha = moff() + (hrng.chance(1, 4) ? 0x800 * hrng.below(31) : 0); ret = in.api.MMIORead(ha); }
                     } catch (const TeakraVerifAssert&) { hout = "assert"; dead = true; }
                     if (in.log.oob) { hout = "oob"; dead = true; }
                     o.begin(); o.str("e", "Host"); o.str("op", op.c_str());
@@ -820,7 +879,7 @@ int main(int argc, char** argv) {
                     o.end();
                     if (dead) break;
                     if (op == "Reset") {
-                        for (auto& kv : prog.words) in.t->ProgramWrite(kv.first, kv.second);
+                        for (auto& kv : prog.words) in.api.ProgramWrite(kv.first, kv.second);
                         o.begin(); o.str("e", "Load"); o.raw("w", lw + "]"); o.end();
                     }
                 }
